@@ -321,6 +321,8 @@ impl Eval {
         compiler.compile_statement_list(body.statements(), true, false);
 
         let code_block = Gc::new(compiler.finish());
+        #[cfg(boa_verif)]
+        crate::verif::emit_tree(&code_block, "eval");
 
         // Strict calls don't need extensions, since all strict eval calls push a new
         // function environment before evaluating.
